@@ -38,13 +38,15 @@ class R:
         self._contract_item = None
         gs = prog.get("generics") or []
         self.gnames = [g["name"] for g in gs]
-        self.gdecl = ("<" + ", ".join(self.gnames) + ">") if gs else ""
+        lt = prog.get("lifetime")   # a lifetime parameter in front of the type parameters
+        self.gdecl = ("<" + ", ".join(([lt] if lt else []) + self.gnames) + ">") if gs else ""
         self.gwhere = ""
         if gs:
             preds = [f"{g['name']}: svmon::Param + " + (g["extra_bound"] + " + " if g.get("extra_bound") else "") + "'static" for g in gs]
             self.gwhere = " where " + ", ".join(preds)
         # concrete contract type, usable in type and expression position
-        self.ct = contract_ident + (("::<" + ", ".join(g["concrete"] for g in gs) + ">") if gs else "")
+        self.conc = (["'static"] if (lt and gs) else []) + [g["concrete"] for g in gs]
+        self.ct = contract_ident + (("::<" + ", ".join(self.conc) + ">") if gs else "")
 
     # ---------------------------------------------------------- source
     def ty(self, ti):
@@ -184,7 +186,9 @@ class R:
         M, Q = cm(p), cq(p)
         c = p["parts"][0]
         if self.gnames:
-            lines = [f"pub struct {self.cid}{self.gdecl}(std::marker::PhantomData<({', '.join(self.gnames)},)>);"]
+            lt = p.get("lifetime")
+            ph = ([f"&{lt} ()"] if lt else []) + self.gnames
+            lines = [f"pub struct {self.cid}{self.gdecl}(std::marker::PhantomData<({', '.join(ph)},)>);"]
         else:
             lines = [f"pub struct {self.cid};"]
         attrs = []
@@ -193,7 +197,7 @@ class R:
             if ea == "":
                 ea = None
             elif ea is None and self.gnames:
-                ea = "generics<" + ", ".join(g["concrete"] for g in p["generics"]) + ">"
+                ea = "generics<" + ", ".join(self.conc) + ">"
             attrs.append(f"#[{sv}::entry_points({ea})]" if ea else f"#[{sv}::entry_points]")
         attrs.append(f"#[{sv}::contract]")
         body_attrs = []
@@ -231,8 +235,11 @@ class R:
         for extra in c.get("extra_items_first", []):
             lines.append("    " + extra)
         nm = p.get("new_mode")
-        if nm == "params":
-            lines.append(f"    pub fn new(seed: u32) -> Self {{ svmon::note_new(); {self.cid} }}")
+        if nm and nm.startswith("params"):
+            ptxt = {"params": "seed: u32", "params_wild": "_: String", "params_tuple": "(a, b): (String, u64)", "params_self": "&self",
+                    "params_mut": "mut seed: u32"}[nm]
+            ret = f"{self.cid}(std::marker::PhantomData)" if self.gnames else self.cid
+            lines.append(f"    pub fn new({ptxt}) -> Self {{ svmon::note_new(); {ret} }}")
         elif nm != "none":
             val = f"{self.cid}(std::marker::PhantomData)" if self.gnames else self.cid
             lines.append(f"    pub fn new() -> Self {{ svmon::note_new(); {val} }}")
@@ -402,7 +409,7 @@ class R:
 
     def wrap_path(self, kind):
         gs = self.p.get("generics") or []
-        g = ("::<" + ", ".join(x["concrete"] for x in gs) + ">") if gs else ""
+        g = ("::<" + ", ".join(self.conc) + ">") if gs else ""
         return f"sv::{WRAP_OF[kind]}{g}"
 
     def _deps(self, part, kind):
@@ -585,8 +592,14 @@ class R:
             "let funds = coins_of(&a[\"funds\"]); let salt = a[\"salt\"].as_str().map(|s| Binary::from_base64(s).unwrap().to_vec()); "
             "let sender = Addr::unchecked(a[\"sender\"].as_str().unwrap()); "
             f"let mut b = cid.instantiate({call_args}); "
+            # option setters may be called repeatedly: earlier values are given in *_seq, the last one wins
+            "let labels: Vec<String> = a[\"label_seq\"].as_array().map(|l| l.iter().filter_map(|x| x.as_str().map(str::to_owned)).collect()).unwrap_or_default(); "
+            "for l in labels.iter() { b = b.with_label(l.as_str()); } "
+            "if let Some(seq) = a[\"admin_seq\"].as_array() { for x in seq { b = b.with_admin(x.as_str()); } } "
+            "let fseq: Vec<Vec<Coin>> = a[\"funds_seq\"].as_array().map(|l| l.iter().map(coins_of).collect()).unwrap_or_default(); "
+            "for f in fseq.iter() { b = b.with_funds(f.as_slice()); } "
             "if let Some(l) = a[\"label\"].as_str() { b = b.with_label(l); } "
-            "if let Some(ad) = a[\"admin\"].as_str() { b = b.with_admin(ad); } "
+            "if let Some(ad) = a[\"admin\"].as_str() { b = b.with_admin(ad); } else if a[\"admin_seq\"].is_array() { b = b.with_admin(None); } "
             "if !a[\"funds\"].is_null() { b = b.with_funds(&funds); } "
             "if let Some(s) = salt.as_ref() { b = b.with_salt(s.as_slice()); } "
             "match b.call(&sender) { Ok(px) => svmon::mt::ok(json!({\"addr\": px.contract_addr})), Err(e) => svmon::mt::err_described(e) }")
@@ -643,6 +656,8 @@ class R:
                 arm(f"schema_for:{part['id']}:{kind}", f"schema_json::<{self.msg_path(part, kind)}>()")
         # ---- C20
         arm("remote:c", f"remote_probe::<{self.ct}>(a)")
+        rts = [f"{sv}::types::Remote<'static, {self.ct}>"] + [f"{sv}::types::Remote<'static, {self.dyn_iface(pt)}>" for pt in p["parts"][1:]]
+        arm("remote_doc", f"schema_json::<({', '.join(rts)},)>()")
         for part in p["parts"][1:]:
             arm(f"remote:{part['id']}", f"remote_probe::<{self.dyn_iface(part)}>(a)")
         # ---- C10 executors / queriers
